@@ -54,7 +54,7 @@ func (p Path) String() string {
 	sb.WriteString(p.RootName())
 	for _, f := range p.Fields {
 		sb.WriteByte('.')
-		sb.WriteString(f.Name())
+		sb.WriteString(CanonName(f))
 	}
 	return sb.String()
 }
@@ -63,7 +63,7 @@ func (p Path) String() string {
 func (p Path) FieldString() string {
 	names := make([]string, len(p.Fields))
 	for i, f := range p.Fields {
-		names[i] = f.Name()
+		names[i] = CanonName(f)
 	}
 	return strings.Join(names, ".")
 }
